@@ -11,7 +11,7 @@ def repo_commits():
 
 CHECKS = {
  "C01": dict(cat="fault_enumeration", engine="crash", tech="crash-image enumeration over recorded disk traces of sequential and concurrent workloads (every prefix cut + sampled lossy and depth-2 cuts), recovered tree matched against reference prefixes",
-   text="Every prefix cut of each recorded disk trace, sampled lossy (un-barriered writes lost/reordered) cuts and cuts of the recovery run itself are recovered by the real MakeNfs and must equal the reference state after an operation prefix in [acknowledged-stable, issued]; then fsck and a continuation workload. Concurrent traces (2-4 clients confined to their own directories, journal-rejected requests next to them): every client's subtree must be a prefix state of its own sequence within [durable, issued] and the combination must respect real time across clients. Held on the traces explored, not a proof.",
+   text="Every prefix cut of each recorded disk trace, sampled lossy (un-barriered writes lost/reordered) cuts and cuts of the recovery run itself are recovered by the real MakeNfs and must equal the reference state after an operation prefix in [acknowledged-stable, issued]; then fsck and a continuation workload. Concurrent traces (2-4 clients confined to their own directories, journal-rejected requests next to them): every client's subtree must be a prefix state of its own sequence within [durable, issued] and the combination must respect real time across clients; an observer's READDIRPLUS pins the operation that produced its listing as durable. Directed: each kind of stable request parked at a commit hook next to journal-rejected requests, image at the instant of its reply. Held on the traces explored, not a proof.",
    note="disk model: atomic 4 KiB writes, device-wide barriers (what GoJournal assumes); traces are samples; reference model conventions of DESIGN §2.2", ref="§4 C01"),
  "C02": dict(cat="exploration", engine="seq", tech="differential monitor against an executable reference model over seeded operation sequences (direct and RPC/XDR adapters)",
    text="Seeded state-aware sequences over all 22 procedures are executed on the real server and on a reference model in lock-step; every reply and periodic whole-tree dumps (also after restarts) must agree.",
@@ -29,13 +29,13 @@ CHECKS = {
    text="Every inode-lock request is observed with the locks already held: definite wait-for cycles and self-waits are detected before blocking, the accumulated lock-order graph must be acyclic, and retries are bounded in logical steps.",
    note="only inode locks are hooked; the one other lock that requests wait on (Nfs.renameMu, serializing cross-directory renames) is covered by the progress-based wedge detector, not by the wait-for graph; unbounded liveness is replaced by the logical criteria of DESIGN §2.6", ref="§4 C06"),
  "C07": dict(cat="fault_enumeration", engine="crash", tech="crash-image enumeration with stability-aware lower bounds + reply monitor for committed level and write verifier",
-   text="Write-heavy traces mixing UNSTABLE/DATA_SYNC/FILE_SYNC, COMMIT and metadata operations are cut at every point; the recovered state must be a prefix containing everything acknowledged stable; committed level and verifier checked on every reply.",
+   text="Write-heavy traces mixing UNSTABLE/DATA_SYNC/FILE_SYNC, COMMIT and metadata operations (also big truncations and SETATTRs that change nothing after unstable data) are cut at every point; concurrent writers with journal-rejected requests next to them; commit-gate runs; the recovered state must be a prefix containing everything acknowledged stable; committed level and verifier checked on every reply.",
    note="same disk model as C01", ref="§4 C07"),
  "C08": dict(cat="exploration", engine="seq", tech="history monitor binding every issued handle to one object; dead-handle probes of every procedure and handle position; sweep over the whole inode table",
    text="Inode-reuse-heavy sequences with restarts; handle/object bijection; dead and reused-number handles must be answered NFS3ERR_STALE everywhere. Inode-table sweep: every inode number up to the last is handed out, used through its handle, freed and handed out again after a restart.",
    note="inputs are sampled", ref="§4 C08"),
  "C09": dict(cat="exploration", engine="seq", tech="before/after state monitor around every failing RPC on nearly-full disks (tree, free counts, fsck, cache coherence)",
-   text="On nearly full disks every failing RPC is followed by a comparison of free counts, the whole tree against the reference (where it never happened), fsck and cache/disk coherence.",
+   text="On nearly full disks (and, for requests that fail only at commit time because the journal rejects them, on a roomy one) every failing RPC is followed by a comparison of free counts, the whole tree against the reference (where it never happened), fsck and cache/disk coherence.",
    note="counts, not numbers, are compared (next-fit pointers may move)", ref="§4 C09"),
  "C10": dict(cat="exploration", engine="seq", tech="differential monitor live server vs. server recovered from its image vs. clean restart, plus cache/disk coherence invariant",
    text="At flushed quiescent points the live server is compared (handles, attributes, times, listing order, bytes) with a twin recovered from a copy of the disk and with itself after a clean restart; cached inodes, name caches and allocators are compared with the logical disk. After concurrent histories: flush, restart, the tree and all handles must be unchanged.",
@@ -47,7 +47,7 @@ CHECKS = {
    text="Block-recycling sequences on small disks with shrink/regrow to unaligned sizes, sparse writes, and a sweep that hands out every free block and reads it back.",
    note="inputs are sampled", ref="§4 C12"),
  "C13": dict(cat="exploration", engine="enum", tech="page-protocol monitor over READDIR/READDIRPLUS enumerations with all limit classes and mutations between pages",
-   text="Enumerations of directories of several shapes with count/dircount/maxcount classes; completeness, no duplicates, progress, termination within slots+2 calls, ids/handles/attributes cross-checked by LOOKUP.",
+   text="Enumerations of directories of several shapes with count/dircount/maxcount classes; completeness, no duplicates, progress, termination within slots+2 calls, ids/handles/attributes cross-checked by LOOKUP; every directory left behind by concurrent and abort-window histories is enumerated page by page as well.",
    note="inputs are sampled", ref="§4 C13"),
  "C14": dict(cat="exploration", engine="race", tech="Go race detector over repeated concurrent stress (conflicting RPCs, shrinker, restart, statistics)",
    text="The harness is built with -race and runs the conflicting concurrent workloads repeatedly; any report with a repository or GoJournal frame is a violation.",
@@ -59,10 +59,10 @@ CHECKS = {
    text="Values generated by reflection for every XDR type are encoded by both codecs and must give identical bytes and round-trip; arbitrary/truncated bytes must be accepted/rejected alike; each procedure number must reach its handler.",
    note="rfc1813 of go-rpcgen is generated from the RFC's .x file by the same generator; hand-derived vectors guard the shared part", ref="§4 C16"),
  "C17": dict(cat="fault_enumeration", engine="simple", tech="reference-model differential + porcupine per inode + crash-image enumeration on the simple server",
-   text="Sequential differential against the 30x4096-byte model, concurrent histories partitioned by inode, crash cuts of the disk trace with simple.Recover.",
+   text="Sequential differential against the 30x4096-byte model (stretches with the journal's installer held back), concurrent histories partitioned by inode, crash cuts of the disk trace with simple.Recover, and observation-crash runs (a read answered while a modification is in flight must not show what a crash at that instant loses).",
    note="same disk model as C01", ref="§4 C17"),
  "C18": dict(cat="fault_enumeration", engine="kvs", tech="unique-id model + porcupine + crash-image enumeration on the KVS",
-   text="Values carry unique ids; overlapping MultiPuts from several clients; linearizability; crash cuts: all-or-nothing per MultiPut and durability of acknowledged ones.",
+   text="Values carry unique ids; overlapping MultiPuts from several clients; linearizability; crash cuts: all-or-nothing per MultiPut and durability of acknowledged ones; stretches with the installer held back (gets served from the memory log); crash cuts next to callers whose oversized puts are refused.",
    note="same disk model as C01", ref="§4 C18"),
  "C19": dict(cat="exploration", engine="limits", tech="boundary differential at the limits announced by FSINFO/PATHCONF (limit-1, limit, limit+1)",
    text="Names, write sizes and file sizes around the announced limits: within => success and normal behaviour afterwards; beyond => error and no effect.",
